@@ -58,7 +58,9 @@ func TestC13History(t *testing.T) {
 		wo := sim.DefaultOpts()
 		wo.MaxPools = 4
 		wo.FeeCoin = true
-		h := newHistory(t, wo, swapProfile(), sim.BlockOpts{MaxTxs: 10})
+		prof := swapProfile()
+		prof["createPool"] = 25
+		h := newHistory(t, wo, prof, sim.BlockOpts{MaxTxs: 10})
 		var before map[[2]uint64]poolSnap
 		trades, orderTrades := 0, 0
 		h.R.H.BeforeTx = func(m *sim.TxMeta) { before = snapPools(h, nil) }
@@ -111,6 +113,15 @@ func TestC13History(t *testing.T) {
 		}
 		lockedMin := map[uint64]*big.Int{}
 		h.R.H.AfterCommit = func(height uint64) {
+			// every pool has its own id (and with it its own pool token LP-<id>): a shared id would
+			// let the holders of one pool's tokens withdraw the reserves of another
+			ids := map[uint64][2]uint64{}
+			for _, p := range h.G.V.Pools {
+				if o, dup := ids[p.ID]; dup {
+					violation(t, "pool-id-shared", h.R, "after commit of %d pools (%d,%d) and (%d,%d) share the id %d and the pool token LP-%d", height, o[0], o[1], p.Coin0, p.Coin1, p.ID, p.ID)
+				}
+				ids[p.ID] = [2]uint64{p.Coin0, p.Coin1}
+			}
 			zero := types.Address{}
 			for _, lp := range h.G.V.LPs {
 				bal := h.G.Balance(zero, lp)
@@ -125,6 +136,11 @@ func TestC13History(t *testing.T) {
 		}
 		nb := rapid.IntRange(1, scale(14, 40)).Draw(t, "nBlocks")
 		for i := 0; i < nb; i++ {
+			if i > 0 && sim.U(t, "restart", 5) == 0 {
+				h.N.Restart()
+				h.R.Steps = append(h.R.Steps, "RESTART")
+				sim.S.Label("C13/restarts")
+			}
 			if !h.R.Block(t) {
 				violation(t, "panic", h.R, "%s", h.R.PanicReport())
 			}
